@@ -304,6 +304,79 @@ pub fn probe(func: &str) -> bool {
             }
         }
     }
+    // ---- gradient read-back for requests that are exact permutations of the stored names (fast paths must honour the order asked)
+    for (ia, a, ra) in &ops {
+        let stored: Vec<String> = a.vars().iter().cloned().collect();
+        if stored.len() < 2 {
+            continue;
+        }
+        let mut rev = stored.clone();
+        rev.reverse();
+        let mut rot = stored.clone();
+        rot.rotate_left(1);
+        for req in [stored.clone(), rev, rot] {
+            let g2 = catch(|| a.gradient1(req.clone()));
+            let g1 = catch(|| to1(a).gradient1(req.clone()));
+            let h2 = catch(|| a.gradient2(req.clone()));
+            match (g2, g1, h2) {
+                (Some(g2), Some(g1), Some(h2)) => {
+                    for (i, n) in req.iter().enumerate() {
+                        if !close(g2[i], gg(ra, n)) || !close(g1[i], gg(ra, n)) {
+                            report("probe", func, &format!("gradient1({:?}) of {} (stored order {:?})", req, ia, stored), &format!("Dual2: {:?} Dual: {:?}", g2.to_vec(), g1.to_vec()), &format!("{:?}", req.iter().map(|n| gg(ra, n)).collect::<Vec<f64>>()), false);
+                            return true;
+                        }
+                        for (j, k) in req.iter().enumerate() {
+                            if !close(h2[[i, j]], hh(ra, n, k)) {
+                                report("probe", func, &format!("gradient2({:?})[{},{}] of {} (stored order {:?})", req, i, j, ia, stored), &format!("{}", h2[[i, j]]), &format!("{}", hh(ra, n, k)), false);
+                                return true;
+                            }
+                        }
+                    }
+                }
+                _ => { report("probe", func, &format!("gradient1/gradient2({:?}) of {}", req, ia), "PANIC", "a value", false); return true; }
+            }
+        }
+    }
+    // ---- set_order / set_order_clone: the nine-row table (value always kept; names and derivatives kept when lowering / raising,
+    //      fresh names with unit sensitivity only when a float is raised)
+    {
+        use rateslib::dual::{set_order, set_order_clone, ADOrder, Number};
+        for (ia, a, ra) in &ops {
+            if a.vars().len() == 0 {
+                continue;
+            }
+            let fresh = vec!["fresh_name".to_string()];
+            let inputs: Vec<(&str, Number)> = vec![("F64", Number::F64(ra.v)), ("Dual", Number::Dual(to1(a))), ("Dual2", Number::Dual2(a.clone()))];
+            for (kind, n) in &inputs {
+                for (oname, order) in [("Zero", ADOrder::Zero), ("One", ADOrder::One), ("Two", ADOrder::Two)] {
+                    for which in ["set_order_clone", "set_order"] {
+                        let got = catch(|| if which == "set_order" { set_order(n.clone(), order, fresh.clone()) } else { set_order_clone(n, order, fresh.clone()) });
+                        let inp = format!("{}(Number::{} built from {}, {}, [fresh_name])", which, kind, ia, oname);
+                        let got = match got { Some(g) => g, None => { report("probe", func, &inp, "PANIC", "a value", false); return true; } };
+                        // expected first-order view
+                        let mut exp = R { v: ra.v, g: BTreeMap::new(), h: BTreeMap::new() };
+                        if *kind == "F64" {
+                            exp.g.insert("fresh_name".to_string(), 1.0);
+                        } else {
+                            exp.g = ra.g.clone();
+                            exp.g.insert("fresh_name".to_string(), 0.0);
+                            if *kind == "Dual2" { exp.h = ra.h.clone(); }
+                        }
+                        let bad = match (&got, oname) {
+                            (Number::F64(f), "Zero") => !close(*f, ra.v),
+                            (Number::Dual(d), "One") => { let mut e1 = exp.clone(); e1.h.clear(); cmp1(func, &inp, d, &e1) }
+                            (Number::Dual2(d), "Two") => { let mut e2 = exp.clone(); if *kind != "Dual2" { e2.h.clear(); } cmp2(func, &inp, d, &e2, &[]) }
+                            _ => { report("probe", func, &inp, "a number of another order", oname, false); true }
+                        };
+                        if bad {
+                            if let (Number::F64(f), "Zero") = (&got, oname) { report("probe", func, &inp, &format!("{}", f), &format!("{}", ra.v), false); }
+                            return true;
+                        }
+                    }
+                }
+            }
+        }
+    }
     // ---- gradient1_manifold (absent and present names)
     for (ia, a, ra) in &ops {
         let req = vec!["y".to_string(), "q_absent".to_string(), "x".to_string()];
